@@ -551,6 +551,60 @@ def defs_case(ctx, pydsdl, rng, workdir):
     ctx.case(("defs", text), True, classes=["definition-with-constants"])
 
 
+def attr_case(ctx, pydsdl, rng):
+    """
+    Attributes of every kind (field, padding, constant) built through the public constructors around the same type and
+    name: all pairs obey the pair contract, and equality distinguishes kind, type, name and constant value.
+    """
+    CM = pydsdl.PrimitiveType.CastMode
+    k = rng.choice(["uint", "int", "float", "bool"])
+    if k == "uint":
+        n = rng.randrange(8, 65)
+        mk = lambda: pydsdl.UnsignedIntegerType(n, CM.SATURATED)  # noqa
+        v1, v2 = pydsdl.Rational(rng.randrange(0, 100)), pydsdl.Rational(rng.randrange(100, 200))
+    elif k == "int":
+        n = rng.randrange(9, 65)
+        mk = lambda: pydsdl.SignedIntegerType(n, CM.SATURATED)  # noqa
+        v1, v2 = pydsdl.Rational(-rng.randrange(0, 100)), pydsdl.Rational(rng.randrange(100, 200))
+    elif k == "float":
+        n = rng.choice([16, 32, 64])
+        mk = lambda: pydsdl.FloatType(n, CM.SATURATED)  # noqa
+        v1, v2 = pydsdl.Rational(Fraction(rng.randrange(0, 100), 4)), pydsdl.Rational(Fraction(rng.randrange(401, 800), 4))
+    else:
+        mk = lambda: pydsdl.BooleanType()  # noqa
+        v1, v2 = pydsdl.Boolean(True), pydsdl.Boolean(False)
+    name, other = rng.sample(["x", "value", "FOO", "a1", "Ab", "limit"], 2)
+    pad = rng.choice([1, 7, 8, 16])
+    objs = [
+        ("field", name, "t", None, pydsdl.Field(mk(), name)),
+        ("field", name, "t", None, pydsdl.Field(mk(), name, "some doc")),
+        ("field", other, "t", None, pydsdl.Field(mk(), other)),
+        ("field", name, "u3", None, pydsdl.Field(pydsdl.UnsignedIntegerType(3, CM.TRUNCATED), name)),
+        ("const", name, "t", "v1", pydsdl.Constant(mk(), name, v1)),
+        ("const", name, "t", "v1", pydsdl.Constant(mk(), name, v1, "doc")),
+        ("const", name, "t", "v2", pydsdl.Constant(mk(), name, v2)),
+        ("const", other, "t", "v1", pydsdl.Constant(mk(), other, v1)),
+        ("pad", "", "void%d" % pad, None, pydsdl.PaddingField(pydsdl.VoidType(pad))),
+        ("pad", "", "void%d" % pad, None, pydsdl.PaddingField(pydsdl.VoidType(pad), "doc")),
+        ("pad", "", "void%d" % (pad + 1), None, pydsdl.PaddingField(pydsdl.VoidType(pad + 1))),
+    ]
+    case = {"attr": [k, locals().get("n"), name, other, pad, str(v1), str(v2)]}
+    for i in range(len(objs)):
+        for j in range(i, len(objs)):
+            (ka, na, ta, va, a), (kb, nb, tb, vb, b) = objs[i], objs[j]
+            eq = pair_contract(ctx, a, b, "attributes %s / %s" % (a, b), case)
+            same = (ka, na, ta, va) == (kb, nb, tb, vb)
+            ctx.mon("attr-pair")
+            if same and eq is not True:
+                ctx.violation("C18/equal-descriptions-unequal", "attributes of equal kind, type, name and value differ: %r / %r" % (a, b), case)
+            if not same and eq is True:
+                ctx.violation("C18/eq-ignores-difference", "attributes that differ in kind, type, name or value compare equal: %r (%s) == %r (%s)" % (
+                    a, type(a).__name__, b, type(b).__name__), case)
+    for o in objs[:5]:
+        pickle_contract(ctx, o[-1], pydsdl, case)
+    ctx.case(("attr", repr(case)), True, classes=["attribute-kinds-" + k])
+
+
 def run_shard(ctx):
     pydsdl = import_pydsdl()
     rng = ctx.rng
@@ -582,6 +636,8 @@ def run_shard(ctx):
             ctx.violation("C18/exception", "%r" % (ex,), {})
     for _ in range(ctx.share(ctx.params["n_expr"])):
         expr_case(ctx, pydsdl, rng)
+    for _ in range(ctx.share(ctx.params["n_expr"]) // 4):
+        attr_case(ctx, pydsdl, rng)
     ctx.notes["list_accessors"] = {c.__name__: list_accessors(c) for c in (pydsdl.StructureType, pydsdl.UnionType, pydsdl.DelimitedType, pydsdl.ServiceType)}
 
 
@@ -601,5 +657,8 @@ def replay(ctx, case):
         eq = pair_contract(ctx, b1, b2, "bit length sets", case)
         if R.ref_expand(t1) == R.ref_expand(t2) and eq is not True:
             ctx.violation("C18/bls-equal-sets-unequal", "equal sets compare unequal", case)
+    elif "attr" in case:
+        for sd in range(200):
+            attr_case(ctx, pydsdl, random.Random(sd))
     elif "service" in case:
         service_case(ctx, pydsdl, random.Random(0), ctx.tmp)
